@@ -199,3 +199,25 @@ func zzDrawScenario(enabled []int) zzScen {
 }
 
 var zzAllFocus = []int{zzFOrigin, zzFMethod, zzFHeaders, zzFPNA, zzFLists, zzFDispatch}
+
+// zzVariant picks one of n harness-level variants. The full product
+// (variant x scenario) is explored for the scenarios with few request paths
+// and in the thorough tier; the byte-level scenarios of the quick tier draw
+// from the short list given for them (sum instead of product).
+func (s *zzScen) zzVariant(n int, forOrigin, forMethod, forHeaders []int) int {
+	rich := s.focus == zzFLists || s.focus == zzFPNA || s.focus == zzFDispatch
+	if rich || zzTier() >= 1 {
+		return zzChoose(n)
+	}
+	l := forOrigin
+	switch s.focus {
+	case zzFMethod:
+		l = forMethod
+	case zzFHeaders:
+		l = forHeaders
+	}
+	if len(l) == 1 {
+		return l[0]
+	}
+	return l[zzChoose(len(l))]
+}
